@@ -55,33 +55,37 @@ namespace igris
 
         vector(const Allocator &alloc = Allocator()) : m_alloc(alloc) {}
 
-        vector(const std::initializer_list<T> &initializers)
+        // the constructors below delegate to the default constructor: once
+        // it has run the object exists, so if an element constructor throws
+        // in the body the destructor releases what was built so far
+        vector(const std::initializer_list<T> &initializers) : vector()
         {
             reserve(initializers.size());
             for (auto &a : initializers)
                 push_back(a);
         }
 
-        vector(std::initializer_list<T> &&initializers)
+        vector(std::initializer_list<T> &&initializers) : vector()
         {
             reserve(initializers.size());
             for (auto &a : initializers)
                 push_back(a);
         }
 
-        vector(const vector &other) : m_size(other.m_size)
+        vector(const vector &other) : vector()
         {
-            m_data = m_alloc.allocate(m_size);
-            m_capacity = m_size;
+            m_data = m_alloc.allocate(other.m_size);
+            m_capacity = other.m_size;
             for (auto ip = other.m_data, op = m_data;
                  ip != other.m_data + other.m_size;
                  ip++, op++)
             {
                 igris::constructor(op, *ip);
+                m_size++;
             }
         }
 
-        template <class I, class O> vector(I first, O last)
+        template <class I, class O> vector(I first, O last) : vector()
         {
             reserve(std::distance(first, last));
             for (; first != last; first++)
@@ -137,13 +141,12 @@ namespace igris
             return *this;
         }
 
-        vector(size_t sz) : m_data(nullptr), m_capacity(0), m_size(0)
+        vector(size_t sz) : vector()
         {
             resize(sz);
         }
 
-        vector(iterator a, const iterator b)
-            : m_data(nullptr), m_capacity(0), m_size(0)
+        vector(iterator a, const iterator b) : vector()
         {
             while (a != b)
             {
